@@ -1,7 +1,101 @@
 import Driver.Util
+import Driver.Witness
+import Model.Subtree
+/-! Driver for engine `subtree` (C16): `Subtree.signSubtree` against the real sign-subtree handler
+(decision and the signers of a 200), and function-mode diffs of `Merkle.validSubtree` /
+`Merkle.checkSubtree` against `torchwood.ValidSubtree` / `torchwood.CheckSubtree`. Line protocol
+at the top of `harness/internal/eng/subtree.go`; the scenario header lines are the witness engine's. -/
 namespace Driver.Subtree
-/-- stub: engine not implemented yet -/
+open _root_.Witness _root_.Checkpoint _root_.Subtree
+open Driver.Witness (node emptyHash Desc parseDescs parseNote parseHashes showDescs)
+
+def parseForm : String → Option BodyForm
+  | "ok" => some .ok | "noSeparator" => some .noSeparator | "fewLines" => some .fewLines
+  | "noPrefix" => some .noPrefix | "noSpace" => some .noSpace | "badStart" => some .badStart
+  | "badEnd" => some .badEnd | "badHash" => some .badHash | "badProofHash" => some .badProofHash
+  | _ => none
+
+structure Pending where
+  rid : Nat
+  resp : Resp
+  origin : Bytes
+  start : Nat
+  stop : Nat
+  hash : Hash
+
+structure St where
+  w : Driver.Witness.St := {}
+  pending : List Pending := []
+
+def St.bad (st : St) (n : Nat) (msg : String) : IO St := do
+  IO.println s!"MISMATCH {n} [{st.w.scenario}] {msg}"
+  return { st with w := { st.w with t := { st.w.t with mismatches := st.w.t.mismatches + 1 } } }
+
+def St.good (st : St) (branch : String) : St := { st with w := st.w.good branch }
+
+/-- which registry key made this subtree line -/
+def whoSub (ids : List Nat) (origin : Bytes) (s e : Nat) (hash : Hash) (l : SigLine) : Option Nat :=
+  match subtreeMessage l.name 0 origin s e hash with
+  | some m => ids.find? fun k => l.sig == symSig k m
+  | none => none
+
+def onLine (st : St) (n : Nat) (l : String) : IO St := do
+  match Driver.words l with
+  | ["sreq", rid, form, s, e, hash, proof, note] =>
+    let st := { st with w := { st.w with t := { st.w.t with lines := st.w.t.lines + 1 } } }
+    match rid.toNat?, parseForm form, s.toNat?, e.toNat?, Bytes.ofHex hash, parseHashes proof, parseNote note, st.w.cfg with
+    | some rid, some form, some s, some e, some hash, some proof, some note, some cfg =>
+      let req : SubReq := { body := form, start := s, stop := e, hash := hash, proof := proof, note := note }
+      let env : Subtree.Env := { cfg := cfg, req := req }
+      let resp := signSubtree node env
+      let pd : Pending := { rid := rid, resp := resp, origin := env.origin, start := s, stop := e, hash := hash }
+      return { (st.good s!"sreq:{Driver.Witness.respClass resp}") with pending := st.pending ++ [pd] }
+    | _, _, _, _, _, _, _, _ => st.bad n s!"unparsable request: {l.take 200}"
+  | ["sresp", rid, status, payload] =>
+    let st := { st with w := { st.w with t := { st.w.t with lines := st.w.t.lines + 1 } } }
+    match rid.toNat? with
+    | none => st.bad n s!"bad-line: {l.take 160}"
+    | some rid =>
+      match st.pending.find? (·.rid == rid) with
+      | none => st.bad n s!"response to a request the model knows nothing about: {l.take 160}"
+      | some p =>
+        let st := { st with pending := st.pending.filter (·.rid != rid) }
+        match p.resp with
+        | .dead => st.bad n "model: dead (impossible)"
+        | .err c _ =>
+          if status == toString c.status && payload == "-" then return st.good s!"sresp:{c.status}-{reprStr c}"
+          else st.bad n s!"request {rid}: status {status} {payload}, model {c.status} ({reprStr c})"
+        | .ok sigs =>
+          let want : List Desc := sigs.map fun sl => (sl.name, sl.hash, whoSub st.w.ids p.origin p.start p.stop p.hash sl)
+          match parseDescs payload with
+          | some ds =>
+            if status == "200" && ds == want then return st.good s!"sresp:200:{sigs.length}"
+            else st.bad n s!"request {rid}: status {status} lines {payload}, model 200 {showDescs want}"
+          | none => st.bad n s!"request {rid}: status {status} {payload}, model 200"
+  | ["vs", s, e, res] =>
+    let st := { st with w := { st.w with t := { st.w.t with lines := st.w.t.lines + 1 } } }
+    match s.toNat?, e.toNat? with
+    | some s, some e =>
+      let m := Merkle.validSubtree s e
+      if (res == "1") == m then return st.good s!"validSubtree:{res}"
+      else st.bad n s!"ValidSubtree({s},{e}) impl={res} model={m}"
+    | _, _ => st.bad n s!"bad-line: {l.take 160}"
+  | ["cs", t, th, s, e, sh, proof, res] =>
+    let st := { st with w := { st.w with t := { st.w.t with lines := st.w.t.lines + 1 } } }
+    match t.toNat?, Bytes.ofHex th, s.toNat?, e.toNat?, Bytes.ofHex sh, parseHashes proof with
+    | some t, some th, some s, some e, some sh, some proof =>
+      let m := Merkle.checkSubtree node proof.reverse t th s e sh
+      if (res == "1") == m then return st.good s!"checkSubtree:{res}"
+      else st.bad n s!"CheckSubtree(t={t},[{s},{e})) impl={res} model={m}"
+    | _, _, _, _, _, _ => st.bad n s!"bad-line: {l.take 160}"
+  | _ =>
+    -- scenario header, and the add-checkpoint lines of the round-trip scenarios: the witness driver's
+    let w ← Driver.Witness.onLine st.w n l
+    return { st with w := w }
+
 def main : IO UInt32 := do
-  IO.println "MISMATCH 0 engine subtree has no driver yet"
+  let st ← Driver.foldLines ({} : St) onLine
+  let st ← if st.pending.isEmpty then pure st else st.bad 0 s!"{st.pending.length} request(s) never answered in the trace"
+  IO.println st.w.t.summary
   return 0
 end Driver.Subtree
